@@ -596,7 +596,7 @@ def gen_tree(rng, big):
     pool = [b"AAA", b"BBB", b"", b"C", b"DDDD-long-content", b"EE"]
     if big:
         pool += [bytes([65 + i]) * (i + 2) for i in range(6, 14)]
-    nfiles = rng.randint(6, 10) if big else rng.randint(2, 3)
+    nfiles = rng.randint(6, 10) if big else rng.randint(3, 4)
     dirs = ["", "d", "d/e", "x"] if big else ["", "d"]
     tree = {}
     for i in range(nfiles):
@@ -750,10 +750,9 @@ def classify(sc, r):
     return out
 
 
-def execute(wd, sc, label):
-    """all the real executions of one scenario: the uninterrupted run and the whole crash sweep"""
-    from concurrent.futures import ThreadPoolExecutor
-
+def execute_full(args):
+    """the uninterrupted run of one scenario (in a worker process)"""
+    wd, sc, label = args
     from lib import impl
 
     kind = sc["scenario"]
@@ -772,10 +771,42 @@ def execute(wd, sc, label):
             if o.endswith(".dir"):
                 src_dirs[m] = b
     impl.rm_rf(root)
-    n_ev = len([e for e in events if e["ev"] not in ("end", "info")])
-    with ThreadPoolExecutor(max_workers=3) as ex:
-        results = list(ex.map(lambda n: crash_and_rerun(wd, sc, n, str(n)), range(1, n_ev + 1)))
-    return {"a0": a0, "events": events, "afin": afin, "src_dirs": src_dirs, "results": results}
+    return {"a0": a0, "events": events, "afin": afin, "src_dirs": src_dirs}
+
+
+def _crash_job(args):
+    wd, sc, n = args
+    return crash_and_rerun(wd, sc, n, str(n))
+
+
+def _worker_init(paths):
+    for p in paths:
+        if p not in sys.path:
+            sys.path.insert(0, p)
+
+
+def execute_all(ctx, scs, labels):
+    """every real execution, in worker processes (each with its own fork server): the uninterrupted runs,
+    then every (scenario, kill point) of the sweep"""
+    import multiprocessing
+    from concurrent.futures import ProcessPoolExecutor
+
+    wds = [ctx.fresh("c15-" + lb) for lb in labels]
+    nw = min(14, max(4, (os.cpu_count() or 8) - 2))
+    with ProcessPoolExecutor(max_workers=nw, mp_context=multiprocessing.get_context("spawn"),
+                             initializer=_worker_init, initargs=(list(sys.path),)) as ex:
+        datas = list(ex.map(execute_full, list(zip(wds, scs, labels))))
+        jobs = []
+        for wd, sc, d in zip(wds, scs, datas):
+            n_ev = len([e for e in d["events"] if e["ev"] not in ("end", "info")])
+            jobs += [(wd, sc, n) for n in range(1, n_ev + 1)]
+        res = list(ex.map(_crash_job, jobs, chunksize=4))
+    k = 0
+    for wd, sc, d in zip(wds, scs, datas):
+        n_ev = len([e for e in d["events"] if e["ev"] not in ("end", "info")])
+        d["results"] = res[k:k + n_ev]
+        k += n_ev
+    return datas
 
 
 def run_scenario(ctx, sc, label, data, full_items, rr_items):
@@ -882,16 +913,14 @@ def scenarios(ctx):
     if big:
         kinds += [("stage_transfer", False, True), ("stage_transfer", True, False), ("store_transfer", True, False), ("upload", True, False),
                   ("add", False, True), ("add", False, False)]
-    reps = ctx.n(1, 2)
+    reps = ctx.n(1, 3)
     for rep in range(reps):
         for k, vc, vs in kinds:
             tree = gen_tree(rng, big and rep > 0)
-            if not big and k in ("save", "upload"):
-                tree = dict(sorted(tree.items())[:3])
             if k == "save":
                 tree.setdefault("d/e/deep", rng.choice([b"AAA", b"ZZ"]))
-            if k == "add" or (not big and (vc or vs)):
-                tree = dict(sorted(tree.items())[:3])  # d/dup, d/e/deep or d/f*, f*: still nested, maybe duplicate
+            if k == "add":
+                tree = dict(sorted(tree.items())[:4])
             sc = {"scenario": k, "tree": tree, "pre": [], "verify": vc, "store_verify": vs}
             # some runs start from a store that already holds one of the objects (protected, or left unprotected)
             if rep > 0 or k == "stage_transfer" or (big and rng.random() < 0.4):
@@ -906,15 +935,9 @@ def run(ctx):
 
     full_items, rr_items = [], []
     scs = scenarios(ctx)
-    from concurrent.futures import ThreadPoolExecutor
-
     t0 = time.time()
     labels = [f"{sc['scenario']}-{i}" for i, sc in enumerate(scs)]
-    try:
-        with ThreadPoolExecutor(max_workers=6) as ex:
-            datas = list(ex.map(lambda il: execute(ctx.fresh("c15-" + il[1]), scs[il[0]], il[1]), enumerate(labels)))
-    finally:
-        stop_servers()
+    datas = execute_all(ctx, scs, labels)
     for sc, label, data in zip(scs, labels, datas):
         run_scenario(ctx, sc, label, data, full_items, rr_items)
     ctx.extra["sweep_wall_s"] = round(time.time() - t0, 1)
